@@ -16,7 +16,7 @@ Definition no_opener_c (sy : syntax) (ind : str) (ss : list seg) (rest : str) (c
                    | _ => negb (needle_is_multiquote (ml_start c)) &&
                           segs_ok (ml_start c) (has_rawstring sy) (Plain ind :: ss) rest
                    end
-       | LuaLong => false     (* Lua long brackets: see the Lua section *)
+       | LuaLong => segs_ok_lua (Plain ind :: ss) rest
        | RustRaw => true
        end.
 
@@ -26,12 +26,15 @@ Proof.
   intros sy ind ss c H. unfold no_opener_c in H. unfold cand.
   destruct (ml_linestart c).
   - rewrite app_nil_r in H. apply negb_true_iff in H. now rewrite H.
-  - destruct (ml_kind c); [|discriminate|reflexivity].
-    unfold find_outside_string. destruct (ml_start c) as [|a0 at_] eqn:Ea; [reflexivity|].
-    apply andb_true_iff in H as [Hm Hs]. apply negb_true_iff in Hm. rewrite Hm.
-    pose proof (fos_segs (a0 :: at_) (has_rawstring sy) (Plain ind :: ss) [] 0 Hs) as E.
-    cbn [render_segs flat_map render_seg] in E. fold (render_segs ss) in E. rewrite !app_nil_r in E.
-    rewrite E. reflexivity.
+  - destruct (ml_kind c); [| |reflexivity].
+    + unfold find_outside_string. destruct (ml_start c) as [|a0 at_] eqn:Ea; [reflexivity|].
+      apply andb_true_iff in H as [Hm Hs]. apply negb_true_iff in Hm. rewrite Hm.
+      pose proof (fos_segs (a0 :: at_) (has_rawstring sy) (Plain ind :: ss) [] 0 Hs) as E.
+      cbn [render_segs flat_map render_seg] in E. fold (render_segs ss) in E. rewrite !app_nil_r in E.
+      rewrite E. reflexivity.
+    + pose proof (flua_segs (Plain ind :: ss) [] 0 H) as E.
+      cbn [render_segs flat_map render_seg] in E. fold (render_segs ss) in E. rewrite !app_nil_r in E.
+      rewrite E. reflexivity.
 Qed.
 
 Lemma best_all_none : forall sy line cs, (forall c, In c cs -> cand sy line c = None) ->
@@ -69,7 +72,8 @@ Definition no_opener_before_c (sy : syntax) (ind : str) (ss : list seg) (rest : 
                           segs_ok (ml_start c) (has_rawstring sy) (Plain ind :: ss) rest &&
                           negb (prefixb (ml_start c) rest)
                    end
-       | LuaLong => false
+       | LuaLong => segs_ok_lua (Plain ind :: ss) rest &&
+                    negb (match match_lua rest true with Some _ => true | None => false end)
        | RustRaw => true
        end.
 
@@ -81,7 +85,15 @@ Proof.
   intros sy ind ss rest c p e H Hc. unfold no_opener_before_c in H. unfold cand in Hc.
   destruct (ml_linestart c).
   - apply negb_true_iff in H. rewrite H in Hc. discriminate.
-  - destruct (ml_kind c); [|discriminate|discriminate].
+  - destruct (ml_kind c); [| |discriminate].
+    2:{ apply andb_true_iff in H as [Hs Hnm]. apply negb_true_iff in Hnm.
+        pose proof (flua_segs (Plain ind :: ss) rest 0 Hs) as E.
+        cbn [render_segs flat_map render_seg] in E. fold (render_segs ss) in E.
+        rewrite <- app_assoc in E. rewrite E in Hc. cbn [N.add] in Hc.
+        destruct (flua rest 0 None (utf8_len (ind ++ render_segs ss))) as [[q lvl]|] eqn:Ef; [|discriminate].
+        inversion Hc; subst. apply flua_ge in Ef as [H1 H2].
+        destruct (N.eq_dec p (utf8_len (ind ++ render_segs ss))) as [Heq|Hne]; [|lia].
+        apply H2 in Heq. destruct (match_lua rest true); [discriminate|congruence]. }
     unfold find_outside_string in Hc. destruct (ml_start c) as [|a0 at_] eqn:Ea; [discriminate|].
     apply andb_true_iff in H as [H Hnp]. apply andb_true_iff in H as [Hm Hs].
     apply negb_true_iff in Hm, Hnp. rewrite Hm in Hc.
